@@ -188,7 +188,7 @@ func mutate(base []*gen.Node, slotIdx int, off *gen.Node) (string, [2]int, gen.S
 
 func TestBaseAndOffenders(t *testing.T) {
 	v2fns := sem.V2Fns()
-	rk.Check(t, "slots", 1, evid.Scale(70, 120), func(t *rapid.T) {
+	rk.Check(t, "slots", 1, evid.Scale(70, 45), func(t *rapid.T) {
 		base, _ := genBase(t)
 		src := gen.Print(gen.CloneProg(base), gen.RandomLayout(t))
 		if err, crash := loadV1(src); err != nil || crash != nil {
